@@ -197,6 +197,19 @@ def eval_case(case):
     want_h = K.tz_encode('o', K.blake(forged + raw))
     if h != want_h:
         viol.append(('group-hash-differs', f'hash() = {h}, expected {want_h}', {**base, 'signature': sig, 'forged': forged.hex()}))
+    # ---- a group DERIVED from one whose hash was already read (extended by one content, signed again) hashes its own bytes
+    if case['shape'] == 'plain' and kinds and all(k in ('transaction', 'delegation', 'reveal', 'origination') for k in kinds) and curve != 'BL':
+        try:
+            s2 = signed.operation(make_content(rng, 'transaction', src, key.public_key())).sign()
+            forged2 = bytes.fromhex(s2.forge())
+            raw2 = K.tz_decode('sig', s2.signature)
+            h2 = s2.hash()
+            want2 = K.tz_encode('o', K.blake(forged2 + raw2))
+            if forged2 == forged or h2 != want2:
+                viol.append(('group-hash-after-derivation', f'group extended by one transaction and signed again: hash() = {h2}, expected {want2} '
+                             f'(Blake2b-256 of its own forged bytes ++ signature); the parent group hashed to {h}', {**base, 'parent_hash': h, 'derived_hash': h2}))
+        except Exception as e:
+            viol.append(('group-hash-after-derivation', f'extending a signed group and signing again raised {K.canon_exc(e)}', {**base}))
     # unsigned group: binary_payload / hash must refuse
     try:
         g.binary_payload()
